@@ -185,3 +185,18 @@ def cold_query(K, call, hashseed="31337"):
     if p.returncode != 0:
         raise HarnessError("cold interpreter failed (%d)" % p.returncode)
     return pickle.loads(p.stdout)
+
+
+def cold_history(ops, passive, hashseed):
+    """A whole history in a cold ``python`` process under another hash seed
+    (no zygote, no fork): 'identical across processes and hash seeds'."""
+    e = dict(os.environ)
+    e["PYTHONHASHSEED"] = str(hashseed)
+    e["PYTHONPATH"] = env.VERIF + os.pathsep + e.get("PYTHONPATH", "")
+    e["VERIF_REPO"] = env.REPO
+    p = subprocess.run(
+        [sys.executable, "-m", "sim.oracle_server", "--history"], env=e, cwd=env.VERIF,
+        input=pickle.dumps((ops, passive), protocol=4), stdout=subprocess.PIPE, timeout=120)
+    if p.returncode != 0:
+        raise HarnessError("cold interpreter failed on a history (%d)" % p.returncode)
+    return pickle.loads(p.stdout)
